@@ -38,6 +38,10 @@ class Explorer {
   unsigned hashBudgetMask = 0xff;  // budget kinds mixed into the state hash (kinds whose budget is unbounded are left out)
   bool collectOnly = false;
   std::unordered_map<uint64_t, std::string>* debugPaths = nullptr;  // state -> first choice path (debug)  // compute and record state hashes but never prune (validation of the fingerprint)
+  struct DbgSucc { uint64_t next; std::string path, auxBefore, auxAfter; };
+  std::unordered_map<uint64_t, DbgSucc>* debugSucc = nullptr;
+  std::function<std::string()> debugAux;
+  bool dbgHave = false; uint64_t dbgLastH = 0; size_t dbgLastTrace = 0; std::string dbgLastAux;
   std::unordered_set<uint64_t> visited;
   uint64_t executions = 0, choicePoints = 0, pruned = 0, maxDepth = 0;
   // current run
@@ -81,6 +85,21 @@ class Explorer {
     if (!useHash) return true;
     bool fresh = visited.insert(h).second;
     if (fresh && debugPaths) (*debugPaths)[h] = choicesStr();
+    if (debugSucc) {
+      // fingerprint debugging: the same (state, choices since) must always lead to the same next state
+      if (dbgHave) {
+        uint64_t key = dbgLastH;
+        for (size_t i = dbgLastTrace; i < trace.size(); i++) key = (key * 1099511628211ULL) ^ (uint64_t)(trace[i].chosen + 1);
+        auto it = debugSucc->find(key);
+        std::string aux = debugAux ? debugAux() : std::string();
+        if (it == debugSucc->end()) (*debugSucc)[key] = DbgSucc{h, choicesStr(), dbgLastAux, aux};
+        else if (it->second.next != h) {
+          fprintf(stderr, "FINGERPRINT: same state + same choices, different successor\n  first : %s\n    before: %s\n    after : %s\n  second: %s\n    before: %s\n    after : %s\n",
+                  it->second.path.c_str(), it->second.auxBefore.c_str(), it->second.auxAfter.c_str(), choicesStr().c_str(), dbgLastAux.c_str(), aux.c_str());
+        }
+      }
+      dbgHave = true; dbgLastH = h; dbgLastTrace = trace.size(); dbgLastAux = debugAux ? debugAux() : std::string();
+    }
     if (!fresh && !collectOnly) { aborted = true; pruned++; return false; }
     return true;
   }
@@ -109,6 +128,7 @@ class Explorer {
     aborted = false;
     cycle = false;
     runStates.clear();
+    dbgHave = false;
     for (int k = 0; k < NKINDS; k++) left[k] = budget[k];
     body(*this);
     executions++;
